@@ -94,3 +94,14 @@ claim("C11",
       "summary is published in the aggregate status. Totals over histories (24h reset) are not decided.",
       "Trusts rustc MIR + extractor, tokio channel delivery; Forbidden=>403/no relay is C01; disabled-mode shortcut is C02.R4.",
       "DESIGN.md §5 C11")
+
+claim("C12",
+      "modular secret flow: summary-based interprocedural access-path taint + reader inventory + impl facts + ordering dominance",
+      "Decides, for flows inside the two agent crates, that no value derived from a read of Key::key (or from the raw key response body) "
+      "reaches an observable output (log, console, event, status message, file, header, response body, serialisation) other than the "
+      "key file written by store_local_key; that the readers of the secret field are the reviewed ones; that Key cannot be formatted or "
+      "serialised elsewhere; and that the key directory is chown root / chmod 0700 before the poll loop that may store a key. Quantifier "
+      "over histories/faults is discharged because the analysis covers every path, including all error paths.",
+      "Trusts declared library semantics (comparisons/len/HMAC::finalize declassify; rendering calls propagate), rustc MIR + extractor; "
+      "OS file modes, swap/core dumps and flows inside dependencies are not decided.",
+      "DESIGN.md §5 C12")
